@@ -138,6 +138,9 @@ pub enum ClaimSpec {
     /// a caller-defined claim type (implements PasetoClaim) that serialises as the bare value, not as a
     /// {key: value} map
     Bare { key: String, value: Value },
+    /// `<RegisteredClaim>::default()` for kind in iss|sub|aud|jti|exp|nbf|iat (the documented way to name a
+    /// registered claim when attaching a validator)
+    DefaultOf(String),
 }
 
 #[derive(Serialize, Deserialize, Clone, Debug, PartialEq)]
@@ -204,6 +207,7 @@ impl ClaimSpec {
             ClaimSpec::Native { key, .. } => key,
             ClaimSpec::CustomRef { key, .. } => key,
             ClaimSpec::Bare { key, .. } => key,
+            ClaimSpec::DefaultOf(k) => k,
         }
     }
     /// the JSON value this claim stands for
@@ -218,6 +222,10 @@ impl ClaimSpec {
             | ClaimSpec::Iat(s) => Value::String(s.clone()),
             ClaimSpec::Custom { value, .. } | ClaimSpec::CustomRef { value, .. } | ClaimSpec::Bare { value, .. } => value.clone(),
             ClaimSpec::Native { val, .. } => val.to_json(),
+            ClaimSpec::DefaultOf(k) => match k.as_str() {
+                "exp" | "nbf" | "iat" => Value::String("2019-01-01T00:00:00+00:00".into()),
+                _ => Value::String(String::new()),
+            },
         }
     }
 }
@@ -330,6 +338,9 @@ pub enum FaultKind {
     RandomEdit { seg: Seg, at: usize, hex: String },
     /// re-write a segment from the URL-safe to the standard base64 alphabet ('-' -> '+', '_' -> '/')
     AlphabetSwap { seg: Seg },
+    /// public tokens without footer: the last `p` bytes X||Y of the *message* (|X| = 8) are cut off and a
+    /// footer segment Y||X is added - the re-split that a length-prefix aliasing of period p cannot see
+    RotateMsgTailToFooter { p: usize },
     /// channel-level, no content change
     Duplicate,
 }
@@ -378,6 +389,10 @@ pub enum Op {
         footer: Option<String>,
         assertion: Option<String>,
         out: u32,
+        /// order of the core builder's setter calls: index into the 6 permutations of
+        /// (set_payload, set_footer, set_implicit_assertion); 0 = payload, footer, assertion
+        #[serde(default)]
+        order: u8,
     },
     Fault {
         src: u32,
